@@ -155,6 +155,10 @@ async def one_pair(loop, v, name, seq, txv, txb, rxv, rxb) -> Result:
         forms.append(("keyword", [], dict(zip(keys, txv))))
         half = len(keys) // 2
         forms.append(("mixed", list(txv[:half]), dict(zip(keys[half:], txv[half:]))))
+        if len(keys) >= 2:
+            # keyword order must not matter: the declared order decides the wire order
+            forms.append(("keyword-reversed", [], dict(reversed(list(zip(keys, txv))))))
+            forms.append(("mixed-reversed", list(txv[:1]), dict(reversed(list(zip(keys[1:], txv[1:]))))))
     for form, args, kwargs in forms:
         h._seq = seq
         n0 = len(gw.sent)
